@@ -513,6 +513,115 @@ def _other_builder(res):
     return None
 
 
+_BUILDER = {}
+
+
+def _lc_events(res):
+    return [e for e in res.of_kind("call") if (
+        "LineCollection" in (e.data.get("name") or "") or
+        "Line3DCollection" in (e.data.get("name") or "")) and
+        not tm.is_const(e.live, False)]
+
+
+def _pair_builder(ctx, prog):
+    """A helper added later that builds the collection from two point arrays
+    (segment i runs from starts[i] to ends[i]): found and *verified* with the
+    entry algebra for every plot mode — entry [i, v, k] of what the
+    collection constructor receives is (starts if v == 0 else ends)[i,
+    idx_k], colours passed through.  (function, p_starts, p_ends, p_colors,
+    p_mode) or None."""
+    key = id(prog)
+    if key in _BUILDER:
+        return _BUILDER[key]
+    from ..affine import Aff, AffError, N, show
+    from ..known_functions import KNOWN_FUNCTIONS
+    pmq = prog.cls(PM).qualname
+    out = None
+    for q, fn in sorted(prog.functions.items()):
+        if fn.module.name != "evo.tools.plot" or fn.cls is not None or \
+                q in KNOWN_FUNCTIONS or len(fn.params) < 4 or \
+                "colors" not in fn.params or "plot_mode" not in fn.params:
+            continue
+        ps, pe_ = fn.params[0], fn.params[1]
+        S, E = tm.param(ps), tm.param(pe_)
+        inl = lambda f_: _helpers(f_) or f_.qualname == PL + \
+            "plot_mode_to_idx"
+        verdicts = []
+        for m in prog.enum_members(PM):
+            idx = _mode_idx(prog, pmq, m)
+            if idx is None:
+                verdicts = None
+                break
+            shown = [i for i in idx if i is not None]
+            r = Interp(prog, inline=inl).run(
+                fn, {"plot_mode": tm.enum(pmq, m)})
+            lc = [e for e in _lc_events(r) if e.depth == 0]
+            if len(lc) != 1 or not lc[0].data["args"]:
+                verdicts = None
+                break
+            segs = lc[0].data["args"][0]
+            aff = Aff({S: ("S", [(N,), (3,)]), E: ("E", [(N,), (3,)])}, {},
+                      [tm.call(tm.glob("builtins.len"), (S,), ()),
+                       tm.call(tm.glob("builtins.len"), (E,), ())], {},
+                      unname=Interp.unname)
+            try:
+                d = aff.dims_of(segs)
+                good = d == [(N,), (2,), (len(shown),)] and all(
+                    aff.entry_at(segs, [("p",), (v,), (k,)]) ==
+                    {(("src", "SE"[v], "p", shown[k]),): 1.0}
+                    for v in (0, 1) for k in range(len(shown)))
+            except AffError as ex:
+                verdicts = None
+                break
+            three = "3D" in lc[0].data["name"]
+            cols = dict(lc[0].data["kwargs"]).get("colors")
+            verdicts.append((m, lc[0], good and three == (len(shown) == 3)
+                             and cols is tm.param("colors")))
+        if verdicts is None:
+            continue
+        out = (fn, ps, pe_, "colors", "plot_mode")
+        for m, e, ok in verdicts:
+            ctx.ob("C20.3", e, ok,
+                   f"{fn.name}[{m}]: segment i = (starts[i], ends[i]) in "
+                   f"the mode's columns, one colour per segment" if ok else
+                   f"{fn.name}[{m}]: the segments handed to the collection "
+                   f"are not (starts[i], ends[i]) in the columns of the "
+                   f"plot mode", key=f"C20.3:builder:{m}")
+        break
+    _BUILDER[key] = out
+    return out
+
+
+def _zip_pair(a: T, b: T):
+    """(A, B) if a = A[:min(len(A), len(B))] and b = B[:min(...)] — the two
+    arrays cut to their common length, which is what zip(A, B) pairs"""
+    def cut(x):
+        if x.op == "sub" and x.args[1].op == "slice" and \
+                x.args[1].args[0] is tm.NONE and \
+                x.args[1].args[2] is tm.NONE and \
+                is_call_to(x.args[1].args[1], "builtins.min") and \
+                len(x.args[1].args[1].args[1]) == 2:
+            return x.args[0], x.args[1].args[1].args[1]
+        return x, None
+    A, na = cut(a)
+    B, nb = cut(b)
+    if na is None and nb is None:
+        return a, b
+    ln = lambda z: tm.call(tm.glob("builtins.len"), (z,), ())
+    if na is not None and nb is not None and na == nb and \
+            set(na) == {ln(A), ln(B)}:
+        return A, B
+    return None
+
+
+def _plain_rows(x: T) -> T:
+    """X[s, :] is X[s]"""
+    if x.op == "sub" and x.args[1].op == "tuple" and \
+            len(x.args[1].args) == 2 and x.args[1].args[1] is ALL:
+        return tm.sub(x.args[0], x.args[1].args[0])
+    return x
+
+
 def _segments(ctx, prog):
     """decided per plot mode by evaluating the entry segs[s][v][k] (vertex v
     of the s-th segment, plot axis k) of whatever construction is used:
@@ -520,6 +629,7 @@ def _segments(ctx, prog):
     for v = 1"""
     f = prog.func(PL + "colored_line_collection")
     pmq = prog.cls(PM).qualname
+    bld = _pair_builder(ctx, prog)
     xyz, step = tm.param("xyz"), tm.param("step")
     inl = lambda fn: _helpers(fn) or fn.qualname == PL + "plot_mode_to_idx"
     rows = (tm.sub(xyz, T("slice", tm.NONE, const(-1), step)),
@@ -538,6 +648,27 @@ def _segments(ctx, prog):
         ctx.require(len(lc) == 1, f"colored_line_collection({m}): expected "
                     f"one reachable collection, found {len(lc)}")
         e = lc[0]
+        via = [c for c in r.of_kind("call") if bld is not None and
+               c.data.get("target") is bld[0] and c.depth == 0]
+        if e.depth > 0 and len(via) == 1:
+            # kept as a wrapper of the (verified) two-array builder: the
+            # pairs it hands over must be the pinned ones
+            bb = via[0].data["bound"] or {}
+            zp = _zip_pair(bb.get(bld[1]), bb.get(bld[2])) \
+                if bb.get(bld[1]) is not None and bb.get(bld[2]) is not None \
+                else None
+            ok = zp is not None and _plain_rows(zp[0]) is rows[0] and \
+                _plain_rows(zp[1]) is rows[1] and \
+                bb.get(bld[3]) is tm.param("colors") and \
+                bb.get(bld[4]) is tm.enum(pmq, m)
+            ctx.ob("C20.3", via[0], ok,
+                   f"{m}: segment s = (xyz[:-1:step][s], xyz[1::step][s]) "
+                   f"through {bld[0].name}" if ok else
+                   f"{m}: {bld[0].name} receives "
+                   f"{fmt(bb.get(bld[1]))[:60]} / {fmt(bb.get(bld[2]))[:60]}"
+                   f" — expected the rows xyz[:-1:step] and xyz[1::step]",
+                   key=f"C20.3:segments:{m}")
+            continue
         three = "3D" in e.data["name"]
         ctx.ob("C20.3", e, three == (len(shown) == 3),
                f"{m}: a {'3-D' if three else '2-D'} collection for "
@@ -591,7 +722,28 @@ def _segments(ctx, prog):
             and not pe[3] and pe[2] is tm.param("array") and \
             is_call_to(pe[0], ".to_rgba") and pe[0].args[1][0] is T(
                 "elem", tm.param("array"), pe[1]) and "step" not in b
-    if not cl and _other_builder(rg):
+    via = [c for c in rg.of_kind("call") if bld is not None and
+           c.data.get("target") is bld[0] and c.depth == 0]
+    if not cl and len(via) == 1:
+        bb = via[0].data["bound"] or {}
+        pos_ = tm.attr(tm.param("traj"), "positions_xyz")
+        cols = bb.get(bld[3])
+        pe = per_element(cols) if cols is not None else None
+        ok = _plain_rows(bb.get(bld[1]) or tm.NONE) is tm.sub(
+            pos_, T("slice", tm.NONE, const(-1), tm.NONE)) and \
+            _plain_rows(bb.get(bld[2]) or tm.NONE) is tm.sub(
+                pos_, T("slice", const(1), tm.NONE, tm.NONE)) and \
+            bb.get(bld[4]) is tm.param("plot_mode") and pe is not None \
+            and not pe[3] and pe[2] is tm.param("array") and \
+            is_call_to(pe[0], ".to_rgba") and pe[0].args[1][0] is T(
+                "elem", tm.param("array"), pe[1])
+        ctx.ob("C20.3", via[0], ok,
+               "traj_colormap: one colour per value of `array`, in order, "
+               "on consecutive pairs of the trajectory's own positions"
+               if ok else
+               "traj_colormap: colours / position pairs handed to the "
+               "segment builder deviate", key="C20.3:colormap")
+    elif not cl and _other_builder(rg):
         ctx.undecidable("C20.3", g, "traj_colormap builds its segments "
                         "through another helper than colored_line_collection "
                         f"({_other_builder(rg)}): not evaluated")
@@ -617,7 +769,22 @@ def _segments(ctx, prog):
              } == {(even, p1), (odd, p2)} and \
             tm.is_const(b.get("step"), 2) and \
             b.get("plot_mode") is tm.param("plot_mode")
-    if not cl and _other_builder(rh):
+    via = [c for c in rh.of_kind("call") if bld is not None and
+           c.data.get("target") is bld[0] and c.depth == 0]
+    if not cl and len(via) == 1:
+        bb = via[0].data["bound"] or {}
+        ok = bb.get(bld[1]) is tm.attr(tm.param("traj_1"),
+                                       "positions_xyz") and \
+            bb.get(bld[2]) is tm.attr(tm.param("traj_2"),
+                                      "positions_xyz") and \
+            bb.get(bld[4]) is tm.param("plot_mode")
+        ctx.ob("C20.3", via[0], ok,
+               "correspondence edges: segment i runs from pose i of "
+               "trajectory 1 to pose i of trajectory 2" if ok else
+               f"correspondence edges: the builder receives "
+               f"{fmt(bb.get(bld[1]))[:50]} / {fmt(bb.get(bld[2]))[:50]}",
+               key="C20.3:correspondence")
+    elif not cl and _other_builder(rh):
         ctx.undecidable("C20.3", h, "draw_correspondence_edges builds its "
                         "segments through another helper than "
                         f"colored_line_collection ({_other_builder(rh)}): "
@@ -643,10 +810,20 @@ def _markers(ctx, prog):
     f = prog.func(PL + "draw_coordinate_axes")
     r = Interp(prog, inline=_helpers).run(f)
     cl = r.calls(PL + "colored_line_collection")
+    bld = _pair_builder(ctx, prog)
+    via = [c for c in r.of_kind("call") if bld is not None and
+           c.data.get("target") is bld[0] and c.depth == 0]
+    pair_form = not cl and len(via) == 1
+    if pair_form:
+        cl = via
     ctx.require(len(cl) == 1, "draw_coordinate_axes: line collection call "
                 "not found")
     b = cl[0].data["bound"]
-    verts, cols = b.get("xyz"), b.get("colors")
+    if pair_form:
+        starts_, ends_ = b.get(bld[1]), b.get(bld[2])
+        verts, cols = starts_, b.get(bld[3])
+    else:
+        verts, cols = b.get("xyz"), b.get("colors")
     traj = tm.param("traj")
     poses = tm.attr(traj, "poses_se3")
     want = {"x": 0, "y": 1, "z": 2}
@@ -656,10 +833,21 @@ def _markers(ctx, prog):
                tm.call(tm.glob("builtins.len"), (poses,), ())],
               {tm.param(f"{k}_color"): k for k in want},
               unname=Interp.unname)
-    ok_step = tm.is_const(b.get("step"), 2)
+    ok_step = pair_form or tm.is_const(b.get("step"), 2)
     try:
         vd, cd = aff.dims_of(verts), aff.dims_of(cols)
-        if len(vd) != 2 or vd[1] != (3,) or not cd or \
+        if pair_form:
+            ed = aff.dims_of(ends_)
+            if not (len(vd) == 2 and vd == ed and vd[1] == (3,) and cd and
+                    sorted(map(str, vd[0])) == sorted(map(str, cd[0])) ==
+                    sorted(map(str, (3, N)))):
+                raise AffError(f"start array {vd} / end array {ed} / colour "
+                               f"array {cd}: not (3 axes x n poses, 3) with "
+                               f"one colour per segment")
+            if vd[0] != cd[0]:
+                raise AffError(f"segments are ordered {vd[0]}, their "
+                               f"colours {cd[0]}")
+        elif len(vd) != 2 or vd[1] != (3,) or not cd or \
                 vd[0] != cd[0] + (2,) or sorted(map(str, cd[0])) != \
                 sorted(map(str, (3, N))):
             raise AffError(f"vertex array {vd} / colour array {cd}: not "
@@ -668,8 +856,15 @@ def _markers(ctx, prog):
         bad, axes_seen = [], {}
         for idx in aff.positions([cd[0]]):
             seg = idx[0]
-            start = [aff.entry_at(verts, [seg + (0,), (c,)]) for c in range(3)]
-            end = [aff.entry_at(verts, [seg + (1,), (c,)]) for c in range(3)]
+            if pair_form:
+                start = [aff.entry_at(starts_, [seg, (c,)])
+                         for c in range(3)]
+                end = [aff.entry_at(ends_, [seg, (c,)]) for c in range(3)]
+            else:
+                start = [aff.entry_at(verts, [seg + (0,), (c,)])
+                         for c in range(3)]
+                end = [aff.entry_at(verts, [seg + (1,), (c,)])
+                       for c in range(3)]
             col = aff.entry_at(cols, [seg] + [(0,)] * (len(cd) - 1)) \
                 if len(cd) == 1 else aff.entry_at(cols, [seg])
             axis = None
